@@ -21,7 +21,7 @@ ASSUMPTIONS = ["user discipline: an edit inside the closure of an explicitly ver
                "fork()ed lifetimes share one hash seed (hash-seed variation is C03's subject)"]
 COMPONENTS = {"real": ["twosigma.memento (all)", "CPython import system / exec of cells", "filesystem store on tmpfs", "process lifetimes via fork"],
               "stub": ["generated user program", "uuid4, clock"]}
-REACH = ["programs_with_lambda_helpers", "programs_with_declared_dependencies", "histories_without_explicit_version_bumps", "programs_with_mutual_recursion", "edits_cross_process", "edits_in_process", "restarts", "served_from_store", "ude_raised", "via:partial",
+REACH = ["mishaps", "programs_with_lambda_helpers", "programs_with_declared_dependencies", "histories_without_explicit_version_bumps", "programs_with_mutual_recursion", "edits_cross_process", "edits_in_process", "restarts", "served_from_store", "ude_raised", "via:partial",
          "via:ignore_result", "delivery:inproc-mutate", "delivery:inproc-module"]
 
 
